@@ -173,7 +173,9 @@ structure Cfg where
   checkLevel : Nat
 
 /-- One item whose statement became citable (ghost output, used to state the theorems):
-position, rule, the sequent the rule produced (`none` for `sorry`), the sequent now stored. -/
+position, rule, the sequent the rule produced, the sequent now stored.  `computed = none` marks a
+statement nobody computed: a placeholder (rule = gap rule) or, under `compute_only`, a stated
+sequent taken on trust (any other rule). -/
 structure Ev where
   pos : List Nat
   rule : String
@@ -269,11 +271,19 @@ def checkItem (R : Rules) (cfg : Cfg) : Nat → List Item → List Nat → Item 
         if cfg.noGaps then .error (.check .gaps)
         else .ok ⟨root, [t], [⟨pos, seq.rule, none, t⟩]⟩
     else if cfg.computeOnly && seq.th.isSome then
-      (if seq.rule = "subproof" then
-        match seq.sub with
-        | none => .error .crash
-        | some s => checkList (checkItem R cfg fuel) pos root 0 s
-      else .ok ⟨root, [], []⟩)
+      -- compute_only: a stated sequent is taken on trust (event with `computed = none` whose rule
+      -- is not the gap rule); the contents of a block are still walked
+      match seq.th with
+      | none => .ok ⟨root, [], []⟩
+      | some t =>
+        if seq.rule = "subproof" then
+          match seq.sub with
+          | none => .error .crash
+          | some s =>
+            match checkList (checkItem R cfg fuel) pos root 0 s with
+            | .error e => .error e
+            | .ok o => .ok ⟨o.root, o.gaps, o.trace ++ [⟨pos, seq.rule, none, t⟩]⟩
+        else .ok ⟨root, [], [⟨pos, seq.rule, none, t⟩]⟩
     else if seq.rule = "theorem" then
       match R.thm seq.args with
       | .error .theory => .error (.check .theoremNotFound)
@@ -348,6 +358,17 @@ structure ExtState where
   theorems : List (String × Seq)
   axioms : List (String × Seq)
 
+/-- `thy.theorems[name] = th` (`add_theorem`): a dict assignment, an existing name is overwritten
+in place. -/
+def upsert (name : String) (th : Seq) : List (String × Seq) → List (String × Seq)
+  | [] => [(name, th)]
+  | (n, t) :: rest => if n = name then (n, th) :: rest else (n, t) :: upsert name th rest
+
+/-- `thy.theorems[name]`. -/
+def lookupThm : List (String × Seq) → String → Option Seq
+  | [], _ => none
+  | (n, t) :: rest, name => if n = name then some t else lookupThm rest name
+
 /-- `Theory.checked_extend(exts)`; the rule layer depends on the theorems installed so far.
 On an exception the Python leaves the earlier extensions installed; the model returns the error
 together with the state reached. -/
@@ -356,7 +377,7 @@ def checkedExtend (R : List (String × Seq) → Rules) (fuel : Nat) :
   | st, [] => (st, none)
   | st, .other :: rest => checkedExtend R fuel st rest
   | st, .theorem name th none :: rest =>
-    checkedExtend R fuel ⟨st.theorems ++ [(name, th)], st.axioms ++ [(name, th)]⟩ rest
+    checkedExtend R fuel ⟨upsert name th st.theorems, st.axioms ++ [(name, th)]⟩ rest
   | st, .theorem name th (some prf) :: rest =>
     match checkProof (R st.theorems) ⟨true, false, 0⟩ fuel prf with
     | .error e => (st, some e)
@@ -364,7 +385,7 @@ def checkedExtend (R : List (String × Seq) → Rules) (fuel : Nat) :
       match res.th with
       | none => (st, some (.check .notConclude))
       | some r =>
-        if canProve r th then checkedExtend R fuel ⟨st.theorems ++ [(name, th)], st.axioms⟩ rest
+        if canProve r th then checkedExtend R fuel ⟨upsert name th st.theorems, st.axioms⟩ rest
         else (st, some (.check .notConclude))
 
 end Holpy.C02
